@@ -66,3 +66,12 @@ Theorem C15_election_timeout_fires : forall st r r',
   r_state r' = if r_pre_vote r then StatePreCandidate else StateCandidate.
 Proof. exact TickProofs.election_timeout_fires. Qed.
 Print Assumptions C15_election_timeout_fires.
+
+
+(* a node that cannot campaign never restarts its election timer by itself (the seeded change
+   C15_election_elapsed_reset negates this and lets such a node renew a dead leader's lease for ever) *)
+Theorem C15_nonpromotable_timer_counts : forall st r r',
+  r_state r <> StateLeader -> promotable r = false ->
+  tick st r = Ok r' -> r' = set_r_election_elapsed r (r_election_elapsed r + 1).
+Proof. exact TickProofs.nonpromotable_timer_counts. Qed.
+Print Assumptions C15_nonpromotable_timer_counts.
